@@ -150,6 +150,15 @@ CLAIMED = {
              'defects remain recorded as narrow known findings.',
         design='4/C16',
         technique='TLA+ state machine + TLC, state replay into glom, TLC trace validation of recorded histories'),
+    'C17': dict(
+        text='GlomStream gives a definitional stream-prefix semantics (Out, Demand, DemandLA, first / all) for every base x stage sequence '
+             'x finite / infinite source, a pull machine transcribing each stage\'s buffering (islice / takewhile / dropwhile / chain and '
+             'boltons chunked / windowed / split / unique) checked by TLC against output, laziness (pulled <= DemandLA) and termination '
+             '(leads-to under weak fairness) laws, and a builder machine over Iter / Invoke derivation histories checked against frame / '
+             'extension / freshness laws, with five spec mutants; every case, machine interleaving and builder history is replayed into the '
+             'real library with an instrumented source; seeded random pipelines recorded from the library are judged row by row by TLC.',
+        design='4/C17',
+        technique='TLA+ spec + TLC (invariants, action property, leads-to), replay into glom with pull counting, TLC validation of recorded pull/emit executions'),
 }
 
 PENDING_REASON = 'check not built yet (planned: see DESIGN.md section 4); not claimed until both binding directions exist'
